@@ -52,7 +52,9 @@ def answer (ws : List String) : String :=
     | some "none" => none
     | some s => s.toNat?
     | none => none
-  let e : Env := { retry := !dis, delay := fun a i => tableAt (tables.getD i []) a,
+  let dc := field ws "dc" == some "1"
+  let retireAt : Option Nat := (field ws "retire").bind String.toNat?
+  let e : Env := { retry := if mode == "nd" then (nodeClientFlags dis dc).1 else !dis, delay := fun a i => tableAt (tables.getD i []) a,
                    deadline := deadline, ctxDoneAt := ctxAt, closeAt := closeAt }
   let cache := api == "cache" || api == "mcache"
   let retryable (i : Nat) : Bool := cache || (kinds.getD i "w") != "w"
@@ -62,7 +64,7 @@ def answer (ws : List String) : String :=
     s!"s={o.sends} d={showNats o.delayCalls} f={o.final.code}"
   else if single then
     let o := clDo e (!cache) (retryable 0) (scripts.headD []) 1 0 false
-    s!"s={joinL (o.sends.map ho) ""} d={showNats o.delayCalls} f={o.final.code}"
+    s!"s={joinL (clLabels retireAt o.sends 1 false) ""} d={showNats o.delayCalls} f={o.final.code}"
   else if mode != "cl" then
     let allR := (List.range kinds.length).all retryable
     let o := seqMulti e (!cache) allR (total scripts + 1) scripts 1 0
@@ -107,6 +109,8 @@ def specResend (ws : List String) : String :=
 def step (_ : Unit) (ws : List String) : Unit × String :=
   match ws with
   | "rt" :: r => ((), answer r)
+  | "ndc" :: r =>   -- MGetCache through a per-node client: DoMultiCache unless DisableCache
+    ((), if nodeClientUsesCacheCalls (field r "dis" == some "1") (field r "dc" == some "1") then "mcache" else "do")
   | "rtx" :: _ => ((), "probe")   -- MULTI … EXEC blocks in cluster batches: probed by the harness only, not modelled
   | "!resend" :: r => ((), specResend r)
   | _ => ((), "bad-op")
